@@ -1842,9 +1842,14 @@ theorem np_ensureHasParent (layers : List VPath) (hl : NPLayers I layers) (p : S
   split
   · apply NoPanic.bind (np_exists layers hl _)
     intro b; split
-    · apply NoPanic.bindQ _ (np_writePath layers _) (writePath_np layers hl _)
-      intro wp hwp
-      exact np_createDirAll wp hwp
+    · apply NoPanic.bindQ _ (np_readPath layers hl _) (readPath_np layers hl _)
+      intro rp hrp
+      apply NoPanic.bind (np_isDir rp hrp)
+      intro isd; split
+      · apply NoPanic.bindQ _ (np_writePath layers _) (writePath_np layers hl _)
+        intro wp hwp
+        exact np_createDirAll wp hwp
+      · exact .failK _
     · exact .failK _
   · exact .failK _
 
